@@ -15,6 +15,8 @@ cDtsQ == {50, 100, 101, cInf}
 cObsFew == {{}, {"occupation"}, {"state"}, {"bitstrings", "entanglement_entropy"}, {"energy", "custom"}, AllTags}
 cObsFewQ == {{}, {"occupation"}, {"energy", "state"}, AllTags}
 cDtsQ3 == {100, 101, cInf}
+cPExpsQ3 == {5, 10, 13}
+cEExpsQ4 == {0 - 1, 2, 3, 7}
 cPOne == {5}
 cEOne == {3}
 cDtInf == {cInf}
